@@ -518,7 +518,7 @@ func c10Follow(run *vfRun, c c10Case) {
 		}
 	}
 	// persisted result: contiguous prefix, every beacon valid
-	bs, _ := vfbScan(tap.Store)
+	bs, _ := vfbScanStable(tap.Store)
 	for i, b := range bs {
 		if i > 0 && b.Round != bs[i-1].Round+1 {
 			run.Violation(fmt.Sprintf("C10/followed-chain-has-gap/%s", kind), fmt.Sprintf("store holds rounds %v", vfbRoundsOf(bs)), info)
